@@ -15,3 +15,6 @@ Theorem C07_linear_calls_guarded : forallb linear_call_guarded guarded_calls = t
 Proof. vm_compute. reflexivity. Qed.
 Theorem C07_raise_sites_classified : forallb raise_ok raise_sites = true.
 Proof. vm_compute. reflexivity. Qed.
+(* the handlers that are there to swallow (display lookups, condition estimate, failed trial steps) never re-raise *)
+Theorem C07_swallowing_handlers_swallow : forallb (handler_swallows handler_bodies) swallowing_handlers = true.
+Proof. vm_compute. reflexivity. Qed.
